@@ -6,6 +6,7 @@ mod jsonio;
 mod prog;
 mod s_atten;
 mod s_authz;
+mod s_chain;
 mod s_determ;
 mod s_engine;
 mod s_expr;
@@ -29,6 +30,8 @@ fn main() {
         "atten" => s_atten::run(&opts),
         "determ" => s_determ::run(&opts),
         "limits" => s_limits::run(&opts),
+        "chain" => s_chain::run(&opts),
+        "chainpost" => s_chain::post(&opts),
         other => {
             eprintln!("unknown stream {other}");
             std::process::exit(2);
